@@ -2,6 +2,7 @@
 
 import ast
 import copy
+import re
 from fractions import Fraction
 
 from ..rulekit import *
@@ -2928,6 +2929,234 @@ def e(ctx):
             ctx.ob("every Exception escaping _run is caught in _run_outer", seen_exc, oi, t, construct="try around %s" % stmt_text(rc))
 
 
+# ===========================================================================
+# C05.i  the Block2 follow-up request stays inside the blockwise operation of the request it repeats
+# ===========================================================================
+#
+# A server matches the blocks of one operation by (endpoint, code, every option that is part of the cache key
+# except Block1 / Block2 / Observe) -- RFC 7959 section 2.4 and 2.7, RFC 7641 section 3.6.  The follow-up request is a
+# copy of the original request, so the necessary condition is a statement about ALL overrides the copy is
+# given (keywords, `**` operands, attribute stores after the construction): each of them is either a message
+# field outside the key, or an option the matching ignores: Block1, Block2, Observe, or a NoCacheKey option
+# (RFC 7252 section 5.4.6: number & 0x1e == 0x1c).  An override that hands the original's own value back
+# (`k=self.opt.k`) changes nothing.  The option a keyword addresses is read from the Options class (keyword ->
+# OptionNumber member -> number); nothing here knows option names other than the three the RFCs exempt.  A keyword
+# that is not an option view of Options is a field of the message (Message.copy's own keywords): payload, mid,
+# token, mtype, transport_tuning and remote are outside the key, `code` and `uri` are inside it, anything else is
+# refused.  (Message.copy's body is deliberately not read: how it consumes its keywords is not this clause's
+# business, and its spelling is free.)
+
+_KEY_NEUTRAL_FIELDS = {"payload", "mid", "token", "mtype", "transport_tuning", "remote"}
+_KEY_FIELDS = {"code", "uri"}
+_OPERATION_EXEMPT = ("BLOCK1", "BLOCK2", "OBSERVE")
+
+
+def _option_number_of(prog, attr):
+    """Number of the option the attribute `attr` of Options addresses, read from the class body
+    (`attr = <view>(OptionNumber.X, ...)`) and the OptionNumber members; None when it cannot be read."""
+    oc = prog.cls("options.Options")
+    e = oc.attrs.get(attr)
+    if e is None:
+        return None, None
+    members = prog.cls("numbers.optionnumbers.OptionNumber").attrs
+    hits = []
+    for n in ast.walk(e):
+        if isinstance(n, ast.Attribute) and (chain(n.value) or "").split(".")[-1] == "OptionNumber" and n.attr in members:
+            hits.append(n.attr)
+    if len(set(hits)) != 1:
+        return None, None
+    v = members[hits[0]]
+    if isinstance(v, ast.Constant) and isinstance(v.value, int) and not isinstance(v.value, bool):
+        return hits[0], v.value
+    return None, None
+
+
+def _returned_call_forms(fi, r):
+    """[(call, CFG node)] for `return <call>` / `m = <call>; <stores into m>; return m` (stores folded into the
+    call as in C05.a), `**` operands built up by stores materialised."""
+    cfg = cfg_of(fi)
+    e, at = r.value, cfg.loc1(r)
+    forms = None
+    if isinstance(e, ast.Name):
+        ws = writes_to_name(fi.node, e.id)
+        if len(ws) == 1 and Expander._def_value(e.id, ws[0]) is not None and cfg.dominates(cfg.loc1(ws[0]), at):
+            built, bn = Expander._def_value(e.id, ws[0]), cfg.loc1(ws[0])
+            if isinstance(built, ast.Call):
+                folded = message_buildup(fi, e.id, built, bn, at, r.value)
+                if folded is not None:
+                    forms = [(c2, at) for c1, _pc in folded for c2, _pc2 in splat_alternatives(fi, c1, at)]
+                elif _other_uses(fi, e.id, {id(r.value)} | {id(t) for w in ws for t in ast.walk(w) if isinstance(t, ast.Name) and isinstance(t.ctx, ast.Store)}):
+                    raise AnalysisError("message %s built in %s is used in a way the checker does not interpret before it is returned" % (e.id, fi.short))
+            e, at = built, bn
+    if forms is None:
+        forms = [(c, at) for c, _pc in splat_alternatives(fi, e, at)]
+    return forms
+
+
+@R.clause("C05.i", "_generate_next_block2_request: the follow-up request is a copy of the original whose overrides touch only message fields outside the blockwise key and options the matching of blocks ignores (Block1, Block2, Observe, NoCacheKey options)")
+def i_followup_key(ctx):
+    prog = ctx.prog
+    gi = prog.func(MSG + "_generate_next_block2_request")
+    gcfg = cfg_of(gi)
+    option_attrs = prog.cls("options.Options").attrs
+    exempt = {}
+    members = prog.cls("numbers.optionnumbers.OptionNumber").attrs
+    for nm in _OPERATION_EXEMPT:
+        v = members.get(nm)
+        ctx.need(isinstance(v, ast.Constant) and isinstance(v.value, int), "OptionNumber.%s is not an integer constant" % nm)
+        exempt[v.value] = nm
+
+    def pure(call):
+        c = chain(call.func) or ""
+        return _default_pure(call) or c in ("dict", "tuple", "self.copy") or c.split(".")[-1] in ("BlockwiseTuple", "reduced_to") \
+            or (isinstance(call.func, ast.Attribute) and call.func.attr == "reduced_to")
+
+    GX = Expander(gi, pure=pure, minmax=False, path_conds=False)
+    rets = [n for n in walk_no_nested(gi.node) if isinstance(n, ast.Return)]
+    ctx.floor("returns of _generate_next_block2_request", len(rets), 1)
+    nover = 0
+    for rt in rets:
+        ctx.need(rt.value is not None, "_generate_next_block2_request returns nothing on some path")
+        for form, at in _returned_call_forms(gi, rt):
+            for v, _c in GX.expand(form, at):
+                ctx.need(isinstance(v, ast.Call) and isinstance(v.func, ast.Attribute) and v.func.attr == "copy" and chain(v.func.value) == "self" and not v.args,
+                         "_generate_next_block2_request: the follow-up request is not built as self.copy(<overrides>)")
+                kws = flat_keywords(v)
+                ctx.need(kws is not None, "_generate_next_block2_request: keyword set of the copy cannot be determined")
+                for k, val in sorted(kws.items()):
+                    nover += 1
+                    con = "%s(%s=...)  [override]" % (_text(v.func), k)
+                    is_attr = k.startswith("attribute:")  # `m.<field> = v` after the construction (message_buildup)
+                    if is_attr:
+                        k = k[len("attribute:"):]
+                    if is_attr or k not in option_attrs:
+                        # not an option view of Options: a field of the message itself
+                        if k in _KEY_NEUTRAL_FIELDS:
+                            continue
+                        if k in _KEY_FIELDS:
+                            same = k == "code" and chain(val) == "self.code"
+                            ctx.ob("the follow-up request keeps the code and the Uri options of the request it repeats", same, gi, rt, construct=con,
+                                   detail="%s=%s" % (k, _text(val)))
+                            continue
+                        raise AnalysisError("_generate_next_block2_request overrides %r of the follow-up request, whose role in the blockwise key the rule does not know" % k)
+                    name, num = _option_number_of(prog, k)
+                    ctx.need(num is not None, "option number addressed by Options.%s cannot be read from the class body" % k)
+                    ignored = num in exempt or (num & 0x1E) == 0x1C
+                    same = chain(val) == "self.opt.%s" % k
+                    ctx.ob("an option the follow-up request overrides is one the matching of blocks ignores (Block1/Block2/Observe or NoCacheKey)",
+                           ignored or same, gi, rt, construct=con, detail="%s=%s addresses option %s (%d), part of the blockwise key" % (k, _text(val), name, num))
+    ctx.floor("overrides of the follow-up request", nover, 1)
+
+
+# ===========================================================================
+# C05.j  a follow-up block is rejected only for what the property lets the client reject
+# ===========================================================================
+#
+# A conforming server may express the same byte offset in a smaller block size at any time (RFC 7959 section 2.4), so
+# the only facts about a follow-up response that may end the transfer with an error are: its payload does not
+# fit its descriptor, its byte offset (NUM x size) is not the number of bytes assembled so far, its ETag differs.
+# Stated over ALL paths: every `raise` that can be reached from the point where the follow-up response arrives
+# without passing through the assembly call -- and every `raise` of the assembly function whose condition
+# depends on the block handed in -- sits under conditions that entail one of these three facts.  A rejection
+# under any other condition (block number, size exponent, code, ...) refuses transfers the property requires to
+# succeed.  Conditions are compared as normal-form literals after replacing locals by their definitions.
+
+
+def _rejection_literals(X, N, nid, resp, body):
+    """Normal-form literals of the three legitimate rejection facts for response expression `resp` and assembled
+    message expression `body`, with locals read as at CFG node nid."""
+    refs = ("not %s.opt.block2.is_valid_for_payload_size(len(%s.payload))" % (resp, resp),
+            "%s.opt.block2.start != len(%s.payload)" % (resp, body),
+            "%s.opt.etag != %s.opt.etag" % (resp, body))
+    out = set()
+    saved = X.path_conds
+    X.path_conds = False
+    try:
+        for src in refs:
+            e = ast.parse(src, mode="eval").body
+            for v, _c in X.expand(e, nid):
+                for conj in _dnf(N, v, True):
+                    if len(conj) == 1:
+                        out.add(conj[0])
+    finally:
+        X.path_conds = saved
+    return out
+
+
+def _lit_talks_about(l, name):
+    """The local `name` occurs anywhere in the literal's operands (also inside opaque atoms such as len(name.f))."""
+    pat_ = re.compile(r"(?<![A-Za-z0-9_.])%s(?![A-Za-z0-9_])" % re.escape(name))
+    for x in l[1:]:
+        if isinstance(x, Poly):
+            if any(pat_.search(str(a)) for a in x.atoms()):
+                return True
+        elif pat_.search(str(x)):
+            return True
+    return False
+
+
+def _justified(X, N, fi, raise_stmt, lits, only_about=None):
+    """Every alternative of the conditions of the raise entails one legitimate rejection literal (or, with
+    only_about, does not mention that name at all: the condition is then not about the block)."""
+    alts = cond_dnf(X, N, fi, raise_stmt)
+    if not alts:
+        return True, []  # unreachable under its own conditions
+    bad = []
+    for a in alts:
+        if any(entails(a, l) for l in lits):
+            continue
+        if only_about is not None and not any(_lit_talks_about(l, only_about) for l in a):
+            continue
+        bad.append(a)
+    return not bad, bad
+
+
+@R.clause("C05.j", "a follow-up Block2 response ends the transfer with an error only when its payload size does not fit its descriptor, its byte offset is not the length assembled so far, or its ETag differs -- in _append_response_block and on every path of _complete_by_requesting_block2 from the response to a raise that does not pass the assembly")
+def j_rejections(ctx):
+    prog = ctx.prog
+    # the assembly function
+    fi = prog.func(MSG + "_append_response_block")
+    p = params(fi)
+    ctx.need(len(p) == 1 and not writes_to_name(fi.node, p[0]), "_append_response_block signature changed")
+    nb = p[0]
+    cfg = cfg_of(fi)
+    X, N = Expander(fi), Normalizer()
+    raises = [n for n in walk_no_nested(fi.node) if isinstance(n, ast.Raise)]
+    ctx.floor("raise statements in _append_response_block", len(raises), 3)
+    for rs in raises:
+        lits = _rejection_literals(X, N, cfg.loc1(rs), nb, "self")
+        ok, bad = _justified(X, N, fi, rs, lits, only_about=nb)
+        ctx.ob("a block is refused by the assembly only for a payload-size, byte-offset or ETag inconsistency", ok, fi, rs,
+               detail="; ".join(_show(a) for a in bad[:2]))
+
+    # the requesting loop
+    li = prog.func(BR + "_complete_by_requesting_block2")
+    lcfg = cfg_of(li)
+    LX, LN = Expander(li), Normalizer()
+    apps = [n for n, _ in find("$r._append_response_block($a)", li.node)]
+    ctx.floor("_append_response_block call sites", len(apps), 1)
+    nsrc = 0
+    for ap in apps:
+        an = lcfg.loc1(ap)
+        ctx.need(len(ap.args) == 1 and isinstance(ap.args[0], ast.Name) and chain(ap.func.value) is not None and not ap.keywords,
+                 "_complete_by_requesting_block2: the assembly call is not <message>._append_response_block(<local>)")
+        resp, body = ap.args[0].id, chain(ap.func.value)
+        defs, _entry = LX.reaching(resp, an)
+        srcs = {wn for wn, st, _v, _b in defs if any(isinstance(x, ast.Await) for x in ast.walk(st))}
+        ctx.need(srcs, "_complete_by_requesting_block2: the block handed to the assembly is not an awaited response")
+        nsrc += len(srcs)
+        region = lcfg.reach(srcs, avoid={lcfg.loc1(a2) for a2 in apps}, skip_labels=("exc",))
+        for n in sorted(region):
+            nd = lcfg.nodes[n]
+            if nd.kind != "raise":
+                continue
+            lits = _rejection_literals(LX, LN, n, resp, body)
+            ok, bad = _justified(LX, LN, li, nd.ast, lits)
+            ctx.ob("a follow-up response is refused outside the assembly only for a payload-size, byte-offset or ETag inconsistency", ok, li, nd.ast,
+                   detail="; ".join(_show(a) for a in bad[:2]))
+    ctx.floor("awaited follow-up responses", nsrc, 1)
+
+
 # ---------------------------------------------------------------------------
 # seeded faults (sensitivity self-test)
 F_MSG = "aiocoap/message.py"
@@ -3370,3 +3599,13 @@ R.seed("C05.h", F_PRO, "                    # ignoring (discarding) the successf
        "                    break\n", "the Block1 phase ends on any acknowledgement without more-flag, successful or not")
 R.seed("C05.h", F_PRO, "                if not blockresponse.code.is_successful():\n                    break\n", "                if blockresponse.code != CONTINUE:\n                    break\n",
        "only 2.31 keeps the upload going: a 2.04 acknowledgement of an intermediate block with M=0 is taken for the final result")
+R.seed("C05.i", F_MSG, "            block1=None,\n            observe=None,\n        )", "            block1=None,\n            observe=None,\n            content_format=None,\n        )",
+       "the follow-up request drops Content-Format: it no longer matches the blockwise key of the request that produced the body")
+R.seed("C05.i", F_MSG, "            block1=None,\n            observe=None,\n        )", "            block1=None,\n            observe=None,\n            **{\"uri_query\": ()},\n        )",
+       "the follow-up request drops the query (given as a ** operand)")
+R.seed("C05.j", F_PRO, "            try:\n                assembled_response._append_response_block(last_response)",
+       "            if block2.block_number != current_block2.opt.block2.block_number:\n                raise error.UnexpectedBlock2()\n            try:\n                assembled_response._append_response_block(last_response)",
+       "the answered block number is compared with the requested one: a server that lowers the block size mid-transfer (same offset, other number) is refused")
+R.seed("C05.j", F_MSG, "        if next_block.opt.etag != self.opt.etag:\n            raise error.ResourceChanged()\n",
+       "        if next_block.opt.etag != self.opt.etag:\n            raise error.ResourceChanged()\n        if block2.size_exponent != self.opt.block2.size_exponent:\n            raise error.UnexpectedBlock2()\n",
+       "the assembly refuses a block whose size exponent differs from the previous block's")
